@@ -54,6 +54,9 @@ type APIHistory struct {
 	// NoRecovery constructs the Workstream with WithNoRecovery (nothing to recover on a fresh store: every clause of
 	// C12 applies unchanged).
 	NoRecovery bool `json:",omitempty"`
+	// SlowReadNth > 0: the SlowReadNth-th storage Read issued by the engine returns SlowReadUs µs late.
+	SlowReadNth int `json:",omitempty"`
+	SlowReadUs  int `json:",omitempty"`
 }
 
 type startCall struct {
@@ -112,6 +115,7 @@ func RunAPI(h *APIHistory, res *vprop.Result) {
 		return
 	}
 	rec := &RecVault{Vault: inner, lab: l}
+	l.slowReadNth, l.slowReadUs = h.SlowReadNth, h.SlowReadUs
 	var opts []coercion.Option
 	if h.MaxSubmitMs > 0 {
 		opts = append(opts, coercion.WithMaxSubmit(time.Duration(h.MaxSubmitMs)*time.Millisecond))
